@@ -443,6 +443,55 @@ def two_scenarios(ids, names_a, names_b, res):
     res.outcomes["two-scenarios"] += 1
 
 
+def preassigned_case(ids, name, which, res):
+    """an obstacle that carries a lanelet assignment when it is added (set by its creator: the shape lanelets, the centre lanelets, or both; the
+    values are the correct ones): after add_objects every lanelet's registry is the inverse of the recorded shape assignment, and after
+    remove_obstacle no registry lists the obstacle any more"""
+    from commonroad.scenario.scenario import Scenario, ScenarioID
+    P = pool()
+    osp = P[name]
+    case = {"k": "preassigned", "ids": list(ids), "obstacle": name, "given": which}
+    res.evals += 1; res.transitions += 2; res.nontrivial += 1; res.states += 1
+    exp = expected_assignment(osp, ids)
+    t0 = osp["initial_state"]["attrs"]["time_step"]
+    if any(exp[t][2] for t in exp):
+        res.guarded += 1       # an undecided lanelet (guard band): not used for pre-assignment
+        return
+    try:
+        sc = Scenario(0.1, ScenarioID())
+        for i in ids:
+            sc.add_objects(spec.mk_lanelet(netgeo.lanelet_spec(i)))
+        o = spec.mk_obstacle(osp)
+        if which in ("shape", "both"):
+            o.initial_shape_lanelet_ids = set(exp[t0][1])
+            if osp["role"] == "dynamic" and o.prediction is not None:
+                o.prediction.shape_lanelet_assignment = {t: set(exp[t][1]) for t in exp if t != t0}
+        if which in ("center", "both"):
+            o.initial_center_lanelet_ids = set(exp[t0][0])
+            if osp["role"] == "dynamic" and o.prediction is not None:
+                o.prediction.center_lanelet_assignment = {t: set(exp[t][0]) for t in exp if t != t0}
+        sc.add_objects(o)
+    except Exception as e:
+        res.violation(f"C07|preassigned:{which}|{osp['role']}|add-raises:{type(e).__name__}", f"{case}: {e!r}", case)
+        return
+    want_static = {i: ([osp["id"]] if osp["role"] == "static" and which != "center" and i in exp[t0][1] else []) for i in ids}
+    want_dyn = {i: ({t: [osp["id"]] for t in exp if i in exp[t][1]} if osp["role"] == "dynamic" and which != "center" else {}) for i in ids}
+    reg = registries(sc)
+    for i in ids:
+        if reg[i][0] != want_static[i] or reg[i][1] != want_dyn[i]:
+            res.violation(f"C07|preassigned:{which}|{osp['role']}|registry-after-add|not-inverse", f"{case}: lanelet {i}: registries {reg[i]}, inverse of the assignment the obstacle carries: {want_static[i]}, {want_dyn[i]}", case)
+            return
+    try:
+        sc.remove_obstacle(o)
+    except Exception as e:
+        res.violation(f"C07|preassigned:{which}|{osp['role']}|remove-raises:{type(e).__name__}", f"{case}: {e!r}", case)
+        return
+    left = {i: r for i, r in registries(sc).items() if r[0] or any(v for v in r[1].values())}
+    if left:
+        res.violation(f"C07|preassigned:{which}|{osp['role']}|registry|stale-after-remove", f"{case}: registries after removing the obstacle: {left}", case)
+    res.outcomes["preassigned"] += 1
+
+
 def describe(tier):
     return {"networks": NETWORKS, "obstacle_pool": sorted(pool()), "obstacle_sets": "all of size 1 and 2", "routes": ["assign", "xml", "pb"],
             "history_universe": H_OBST, "history_depth": 4 if tier == "quick" else 7, "exhaustive": True}
@@ -466,6 +515,7 @@ def units(tier):
     for op in h_enabled((frozenset(), frozenset(), frozenset())):
         u.append({"k": "history", "first": op, "depth": 4 if tier == "quick" else 7})
     u.append({"k": "two-scenarios"})
+    u.append({"k": "preassigned"})
     return u
 
 
@@ -483,6 +533,12 @@ def run_unit(unit, tier):
         for ids in ([1, 6], [1, 5]):
             for a, b in ((["s-rect-straddle", "d-rect-traj"], ["s-rect-inside"]), (["d-rect-traj"], ["d-rect-turn", "s-rect-straddle"]), (["s-rect-straddle"], [])):
                 two_scenarios(ids, a, b, res)
+        res.sample(unit, 1)
+    elif unit["k"] == "preassigned":
+        for ids in NETWORKS:
+            for name in sorted(pool()):
+                for which in ("shape", "center", "both"):
+                    preassigned_case(ids, name, which, res)
         res.sample(unit, 1)
     else:
         live, model = h_start()
@@ -508,6 +564,9 @@ def replay(case):
         return out
     if case.get("k") == "two-scenarios":
         two_scenarios(case["ids"], case["a"], case["b"], res)
+        return [(s, d) for s, d, _ in res.violations]
+    if case.get("k") == "preassigned":
+        preassigned_case(case["ids"], case["obstacle"], case["given"], res)
         return [(s, d) for s, d, _ in res.violations]
     d = tempfile.mkdtemp(prefix="c07_")
     run_inputs(case["ids"], case["obstacles"], case["route"], res, d)
